@@ -46,6 +46,17 @@ func getAllFramesFromDataFrame(
 	firstDataFrame *ipldbindcode.DataFrame,
 	dataFrameGetter func(ctx context.Context, wantedCid cid.Cid) (*ipldbindcode.DataFrame, error),
 ) ([]*ipldbindcode.DataFrame, error) {
+	return getAllFramesFromDataFrameOnce(firstDataFrame, dataFrameGetter, make(map[cid.Cid]struct{}))
+}
+
+// getAllFramesFromDataFrameOnce follows the `next` links; a frame that is linked
+// more than once (e.g. a corrupted link pointing back into the chain) is an error
+// rather than an endless recursion.
+func getAllFramesFromDataFrameOnce(
+	firstDataFrame *ipldbindcode.DataFrame,
+	dataFrameGetter func(ctx context.Context, wantedCid cid.Cid) (*ipldbindcode.DataFrame, error),
+	seen map[cid.Cid]struct{},
+) ([]*ipldbindcode.DataFrame, error) {
 	frames := []*ipldbindcode.DataFrame{firstDataFrame}
 	// get the next data frames
 	next, ok := firstDataFrame.GetNext()
@@ -53,11 +64,16 @@ func getAllFramesFromDataFrame(
 		return frames, nil
 	}
 	for _, cid := range next {
-		nextDataFrame, err := dataFrameGetter(context.Background(), cid.(cidlink.Link).Cid)
+		nextCid := cid.(cidlink.Link).Cid
+		if _, dup := seen[nextCid]; dup {
+			return nil, fmt.Errorf("data frame %s is linked more than once", nextCid)
+		}
+		seen[nextCid] = struct{}{}
+		nextDataFrame, err := dataFrameGetter(context.Background(), nextCid)
 		if err != nil {
 			return nil, err
 		}
-		nextFrames, err := getAllFramesFromDataFrame(nextDataFrame, dataFrameGetter)
+		nextFrames, err := getAllFramesFromDataFrameOnce(nextDataFrame, dataFrameGetter, seen)
 		if err != nil {
 			return nil, err
 		}
